@@ -354,7 +354,25 @@ fn component_one(job: &Value) -> Result<Value> {
     };
     let a = world_shape(&resolve, w);
     let b = world_shape(&r2, w2);
-    Ok(json!({"id": job["id"], "encoder": "ok", "want": a, "got": b}))
+    // the string encodings the module's own metadata declares for the world's functions
+    let (_, bindgen) = wit_component::metadata::decode(&wasm)?;
+    let mut encodings = std::collections::BTreeSet::new();
+    let mw = &bindgen.resolve.worlds[bindgen.world];
+    for (map, items) in [(&bindgen.metadata.import_encodings, &mw.imports), (&bindgen.metadata.export_encodings, &mw.exports)] {
+        for (key, item) in items.iter() {
+            let names: Vec<String> = match item {
+                WorldItem::Function(f) => vec![f.name.clone()],
+                WorldItem::Interface { id, .. } => bindgen.resolve.interfaces[*id].functions.keys().cloned().collect(),
+                WorldItem::Type { .. } => vec![],
+            };
+            for n in names {
+                if let Some(e) = map.get(&bindgen.resolve, key, &n) {
+                    encodings.insert(format!("{e:?}"));
+                }
+            }
+        }
+    }
+    Ok(json!({"id": job["id"], "encoder": "ok", "want": a, "got": b, "encodings": encodings}))
 }
 
 fn main() -> Result<()> {
